@@ -108,6 +108,40 @@ def check_after_mutations(ctx, r, indent, eol):
                       {"recipe_after_mutation": r, "mutations": log, "indent": indent, "eol": eol, "got": got[:1200], "want": want[:1200]})
 
 
+def check_text_document(ctx, rng):
+    """The text HTMLTextDocument inserts at its placeholder is a top-level list (listing, then the tags of every dependency) laid
+    out by the sibling rule: nothing for a dependency that contributes no tags, adjacent raw head markup on one line."""
+    deps = []
+    for j in range(rng.randint(1, 6)):
+        c = rng.random()
+        name = "d%d" % j
+        if c < 0.3:
+            deps.append(ht.HTMLDependency(name, "1.0", source={"subdir": name}, all_files=True))     # ships files only
+        elif c < 0.55:
+            deps.append(ht.HTMLDependency(name, "2.0", head='<meta name="%s" content="1">' % name))    # raw head markup
+        elif c < 0.7:
+            deps.append(ht.HTMLDependency(name, "2.0", head=ht.TagList(ht.tags.title(name), "text " + name)))
+        else:
+            deps.append(ht.HTMLDependency(name, "1.%d" % j, source={"subdir": name}, script=[{"src": "a.js"}, {"src": "b.js"}][: rng.randint(1, 2)],
+                                          stylesheet=[{"href": "s.css"}][: rng.randint(0, 1)], meta=[{"name": "m", "content": name}][: rng.randint(0, 1)]))
+    lib = rng.choice(["lib", None, "x/y"])
+    iv = rng.random() < 0.5
+    got = ht.HTMLTextDocument("<html><head>@@DEPS@@</head><body></body></html>", deps=list(deps), deps_replace_pattern="@@DEPS@@").render(lib_prefix=lib, include_version=iv)["html"]
+    items = ht.TagList(ht.Tag("script", ";".join("%s[%s]" % (d.name, d.version) for d in deps), type="application/html-dependencies"),
+                       *[d.as_html_tags(lib_prefix=lib, include_version=iv) for d in deps])
+    want = "<html><head>" + items.get_html_string() + "</head><body></body></html>"
+    ctx.count("oracle.text_document_layout")
+    wit = {"deps": [(d.name, bool(d.script), None if d.head is None else str(d.head)[:60]) for d in deps], "lib_prefix": lib, "include_version": iv}
+    if got != want:
+        ctx.violation("layout-differs:text-document", "the text inserted by HTMLTextDocument is not the sibling-rule layout of the listing and the dependency tags",
+                      dict(wit, got=got[:900], want=want[:900]))
+        return False
+    if "\n\n" in got or "\n</head>" in got:
+        ctx.violation("layout-differs:text-document", "blank line in the text inserted by HTMLTextDocument", dict(wit, got=got[:900]))
+        return False
+    return True
+
+
 def replay(ctx, w):
     if "recipe_after_mutation" in w:
         return
@@ -187,6 +221,8 @@ def _run(ctx):
     ex = gen.TAG("div", gen.T("a"), gen.TAG("span", gen.T("b"), ws=False), gen.TAG("p", gen.T("c")), gen.T("d"))
     ctx.sample({"recipe": ex, "output": gen.build(ex).get_html_string()})
 
+    for _ in range(ctx.budget(150, 20000)):
+        ctx.guard(check_text_document, ctx, rng, witness={"what": "text document layout"})
     # 2. random valid trees
     for _ in range(ctx.budget(20000, 5000000)):
         ids = lg.Ids()
